@@ -179,6 +179,31 @@ Theorem accepted_message_every_rrset_is_verified : forall H ECP ECV EDV LIBV sig
 Proof. exact verified_message_every_rrset_is_signed. Qed.
 Print Assumptions accepted_message_every_rrset_is_verified.
 
+(* (4c) What the walk leaves alone.  A record of the authority section owned outside the signer zone
+   (the zone cut's NS or DS denial an upstream appends to a positive answer, issue #506) takes no part,
+   whatever it is; nor does an NS record there (a referral's NS set is unsigned by design) ... *)
+Theorem authority_remnant_is_ignored : forall ONE signer answer ns x,
+  walk_in_zone signer x = false ->
+  walk_verdict ONE signer answer (ns ++ [MR x]) = walk_verdict ONE signer answer ns.
+Proof. exact authority_remnant_ignored. Qed.
+Print Assumptions authority_remnant_is_ignored.
+
+Theorem authority_ns_record_is_ignored : forall ONE signer answer ns x,
+  r_type x = TYPE_NS -> list_eqb (r_kind x) KIND_DNAME = false ->
+  walk_verdict ONE signer answer (ns ++ [MR x]) = walk_verdict ONE signer answer ns.
+Proof. exact authority_ns_ignored. Qed.
+Print Assumptions authority_ns_record_is_ignored.
+
+(* ... and the only records of the zone that may go unsigned are CNAMEs that are exactly the RFC 6672
+   substitution under a DNAME owning a proper ancestor of the CNAME owner *)
+Theorem synthesised_cname_is_the_dname_substitution : forall owner target dnames,
+  is_synthesized_cname owner target dnames = true <->
+  exists d, In d dnames /\ 0 < count_label (fst d) /\ count_label (fst d) < count_label owner /\
+    compare_suffix (fst d) owner = count_label (fst d) /\
+    equal_fold (fqdn (firstn (N.to_nat (prev_label owner (count_label (fst d)))) owner ++ snd d)) (fqdn target) = true.
+Proof. exact synthesized_cname_iff. Qed.
+Print Assumptions synthesised_cname_is_the_dname_substitution.
+
 (* (5) ECDSA / Ed25519: acceptance implies the exact key and signature lengths *)
 Theorem ecdsa_accept_implies_exact_lengths : forall H ECP ECV k alg signed sg,
   verify_ecdsa_signature H ECP ECV k alg signed sg = E_OK ->
